@@ -377,6 +377,23 @@ impl HttpClient for ReqwestHttpClient {
             .await
             .map_err(|source| StreamingError::NetworkRequest { source })?;
 
+        // A server that ignores the Range header answers 200 with the whole resource.
+        // The caller asked for the range and will read the result as the range: cut it
+        // out, or report that ranges are not supported when it is not there.
+        if let Some(range) = range
+            && status.as_u16() == 200
+        {
+            let len = bytes.len() as u64;
+            if range.start >= len {
+                return Err(StreamingError::RangeNotSupported {
+                    url: url.to_string(),
+                });
+            }
+            let start = usize::try_from(range.start).unwrap_or(usize::MAX);
+            let end = usize::try_from(range.end.min(len - 1)).unwrap_or(usize::MAX);
+            return Ok(bytes.slice(start..=end));
+        }
+
         Ok(bytes)
     }
 
